@@ -44,10 +44,11 @@ const liveWait = 40 * time.Second
 // ---- server side ---------------------------------------------------------------------------------
 
 type acceptedConn struct {
-	remote string
-	tag    [8]byte
-	gotTag bool
-	recv   []byte // everything after the tag
+	remoteLast string // RemoteAddr() asked again after the latest read
+	remote     string
+	tag        [8]byte
+	gotTag     bool
+	recv       []byte // everything after the tag
 }
 
 type t2server struct {
@@ -146,9 +147,14 @@ func (s *t2server) acceptLoop() {
 			buf := make([]byte, 16384)
 			for {
 				n, err := c.Read(buf)
+				last := "<nil>"
+				if ra := c.RemoteAddr(); ra != nil {
+					last = ra.String()
+				}
 				if n > 0 {
 					s.mu.Lock()
 					a.recv = append(a.recv, buf[:n]...)
+					a.remoteLast = last
 					s.mu.Unlock()
 					out := make([]byte, n)
 					for i := range out {
@@ -171,7 +177,7 @@ func (s *t2server) snapshot() []acceptedConn {
 	defer s.mu.Unlock()
 	out := make([]acceptedConn, len(s.acc))
 	for i, a := range s.acc {
-		out[i] = acceptedConn{remote: a.remote, tag: a.tag, gotTag: a.gotTag, recv: append([]byte(nil), a.recv...)}
+		out[i] = acceptedConn{remote: a.remote, remoteLast: a.remoteLast, tag: a.tag, gotTag: a.gotTag, recv: append([]byte(nil), a.recv...)}
 	}
 	return out
 }
@@ -428,6 +434,24 @@ func schedules() []schedule {
 			pc.attach(c)
 			return ip1, nil
 		}},
+		{"later-carrier-from-other-address", func(s *t2server, pc *cliPC, prefix []byte, ip1, ip2 string) (string, error) {
+			// the session is established over a carrier from ip1; from the 4th packet on it is carried by
+			// a carrier that presents ip2: the accepted connection keeps the address of its establishment
+			c, err := mustDial(s, ip1, prefix)
+			if err != nil {
+				return "", err
+			}
+			pc.attach(c)
+			pc.onSend = func(pc *cliPC, n int) {
+				if n == 4 {
+					pc.carriers[0].close()
+					if c2, err := mustDial(s, ip2, prefix); err == nil {
+						pc.attach(c2)
+					}
+				}
+			}
+			return ip1, nil
+		}},
 		{"cut-inside-a-packet", func(s *t2server, pc *cliPC, prefix []byte, ip1, ip2 string) (string, error) {
 			c, err := mustDial(s, ip1, prefix)
 			if err != nil {
@@ -605,6 +629,8 @@ func judgeAccepted(r *en.R, s *t2server, sessions []*sessResult, desc interface{
 			}
 			if a.remote != wantAddr {
 				r.Fail("accept:wrong-client-address", fmt.Sprintf("session %x was accepted with client address %q, its carrier presented client_ip=%q (%q)", tag, a.remote, x.wantIP, wantAddr), desc)
+			} else if a.remoteLast != "" && a.remoteLast != wantAddr {
+				r.Fail("accept:client-address-changed-later", fmt.Sprintf("session %x was accepted with client address %q, but the same connection later reports %q", tag, a.remote, a.remoteLast), desc)
 			}
 		}
 	}
@@ -646,6 +672,7 @@ func TestVerifEnumC05T2(t *testing.T) {
 	tagN := 0
 	nextTag := func() [8]byte { tagN++; return tagFor(tagN) }
 
+	only := os.Getenv("VERIF_T2_ONLY") // "" = all sections; C18 runs the sessions section alone
 	// A. token ------------------------------------------------------------------------------------
 	r.Begin("token", "carriers whose first 8 bytes are not the turbotunnel token: each of the 64 single-bit flips, all-zero, the token reversed, the token shifted by one byte, every proper prefix (then the carrier ends), each followed by a valid ClientID and a complete client stack (KCP + smux + stream write) trying to establish a session over it: the server must end the carrier and the listener must not produce a connection (judged after a valid session on the same listener has been accepted)")
 	type tokVariant struct {
@@ -669,7 +696,7 @@ func TestVerifEnumC05T2(t *testing.T) {
 	for n := 0; n < 8; n++ {
 		variants = append(variants, tokVariant{fmt.Sprintf("prefix-%d", n), append([]byte{}, turbotunnel.Token[:n]...), false})
 	}
-	if s := newServer(); s != nil {
+	if s := newServer(); s != nil && (only == "" || only == "token") {
 		var bad []*sessResult
 		for _, v := range variants {
 			if !r.Mine() {
@@ -804,6 +831,9 @@ func TestVerifEnumC05T2(t *testing.T) {
 		return
 	}
 	for _, sc := range scen {
+		if only != "" && only != "sessions" {
+			break
+		}
 		if !r.Mine() {
 			continue
 		}
@@ -859,6 +889,9 @@ func TestVerifEnumC05T2(t *testing.T) {
 	}
 	r.Begin("bursts", fmt.Sprintf("%d rounds (all shards together) of %d sessions with distinct ClientIDs whose carriers are set up first and whose client stacks are then released together, so that their first packets arrive together; same oracle as the sessions section", burstRounds, burstK))
 	for round := 0; round < burstRounds; round++ {
+		if only != "" && only != "bursts" {
+			break
+		}
 		if !r.Mine() {
 			continue
 		}
